@@ -138,7 +138,11 @@ func hC13PassThrough() {
 		}
 		// requests that fit no RPC protocol at all (what a web server mounted as the unknown-endpoint handler gets
 		// every day): still none of the transcoder's business on a path nobody configured
-		switch verifChoose("foreign", 5) {
+		foreign := 0
+		if verifTier() == 0 || n == 0 { // (thorough: crossed with empty bodies only; the body plays no part in classification)
+			foreign = verifChoose("foreign", 5)
+		}
+		switch foreign {
 		case 1:
 			req.Header["Content-Type"] = []string{"text/html", "text/plain"} // two Content-Type values
 		case 2:
